@@ -4,6 +4,7 @@ import (
 	"fmt"
 	"os"
 	"sort"
+	"strings"
 	"time"
 
 	"verif/harness/core"
@@ -13,7 +14,7 @@ func init() { checks["C10"] = c10 }
 
 func c10(r *core.Run) {
 	bin := r.GoBuild("vchild", "./cmd/vchild")
-	n := uint64(r.Pick(90, 12000))
+	n := uint64(r.Pick(240, 12000))
 	if v := os.Getenv("VERIF_C10_N"); v != "" {
 		fmt.Sscan(v, &n)
 	}
@@ -36,6 +37,10 @@ func c10(r *core.Run) {
 			if v != vals[0] {
 				var idx uint64
 				fmt.Sscanf(k, "case/%d", &idx)
+				if inputOf(v) != inputOf(vals[0]) {
+					r.Inconclusive("harness fault: program %d was not drawn identically in two processes (%s vs %s)", idx, inputOf(v), inputOf(vals[0]))
+					break
+				}
 				r.Violate(core.Violation{Stream: "gen", Index: idx, Sig: "nondeterministic",
 					What:   "generated output differs between separate processes",
 					Detail: map[string]any{"digests": vals}})
@@ -50,5 +55,12 @@ func c10(r *core.Run) {
 		r.Require("runs", 1000)
 	}
 	r.Assumption("map-iteration nondeterminism is explored by repetition within a process, by fresh processes (new hash seeds) and by forcing link orders through the verif-tagged hook")
-	r.FinishStd("valid multi-file programs biased to many includes, name reuse across files and directories, file names equal to imported runtime packages, go.* annotations, constants of map/set/struct type; each generated (random option set: zap, strict enum text, no-recurse, single output file) 6 (quick) or 9 times in one process, under 8/48 forced link orders, and in 2/6 separate processes; sha256 of every output path+content and of the canonically relabelled plugin request must be identical, and success/failure must agree. non-trivial: every program, distinct by (digest, root text)", "cases")
+	r.FinishStd("valid multi-file programs biased to many includes, name reuse across files and directories, file names equal to imported runtime packages, go.* annotations, constants of map/set/struct type; each generated (random option set: zap, strict enum text, no-recurse, single output file) 5 (quick) or 9 times in one process, under 8/48 forced link orders, and in 2/6 separate processes; sha256 of every output path+content and of the canonically relabelled plugin request must be identical, and success/failure must agree. non-trivial: every program, distinct by (digest, root text)", "cases")
+}
+
+func inputOf(v string) string {
+	if i := strings.Index(v, " input="); i >= 0 {
+		return v[i:]
+	}
+	return ""
 }
